@@ -88,12 +88,89 @@ def checkCase (j : Json) : Except String Verdict := do
       i := i + 1
     return { v with nontrivial := true }
   | none => pure ()
+  -- back-channel requests of several callers in flight at once
+  match (j.getObjVal? "overlap").toOption with
+  | some oj =>
+    let num (k : String) : Int := (oj.getObjVal? k).toOption.bind (·.getInt?.toOption) |>.getD 0
+    let fst (k : String) : String := ((j.getObjVal? "first").toOption.bind (·.getObjVal? k |>.toOption)).bind (·.getStr?.toOption) |>.getD ""
+    for k in ["foreign", "garbled", "leaked", "panics"] do
+      v := v.cmp 0 s!"overlap.{k}" (0 : Int) (num k) ["C08"]
+    if num "foreign" != 0 then v := v.mon "C08" "redeem_answers_the_code_presented" 0 s!"×{num "foreign"}: {fst "foreign"}"
+    if num "garbled" != 0 then v := v.mon "C08" "redeem_answers_the_code_presented" 0 s!"×{num "garbled"}: {fst "garbled"}"
+    if num "leaked" != 0 then v := v.mon "C08" "backchannel_reveals_nothing" 0 s!"×{num "leaked"}: {fst "leaked"}"
+    if num "panics" != 0 then v := v.mon "C08" "redeem_answers_the_code_presented" 0 s!"panic: {fst "panics"}"
+    v := v.br "overlap"
+    return { v with nontrivial := true }
+  | none => pure ()
+  -- each provider's Redeem called directly (Google, Okta, Amazon Cognito as their constructors build them)
+  match (jarr j "provRedeem").toOption with
+  | some rows =>
+    let mut i := 0
+    for r in rows do
+      let inp := getJ r "in"
+      let out := getJ r "out"
+      let ora := getJ r "oracle"
+      let prov := strD inp "provider"
+      if !(getJ r "setupError").isNull then
+        v := v.diff i "provider.setup" "ok" (getJ r "setupError") ["C10"]
+      else
+        let k : ProvKind := if prov == "google" then .google else if prov == "okta" then .okta else .cognito
+        let tk := getJ inp "idpToken"
+        let tresp : TokenResp := match strD tk "kind" with
+          | "ok" => .ok (strD tk "access") (strD tk "refreshT") (strD tk "idToken") (intD tk "ttl")
+          | "status" => .status (intD tk "status").toNat
+          | "transport" => .transport
+          | _ => .malformed
+        let segs := intD ora "idTokenSegments"
+        let idt : IDTok := if segs < 2 then .noSecondSegment
+          else if !(boolD ora "idTokenDecoded") then .undecodable
+          else .claims (toB (strD ora "idTokenEmail")) (boolD ora "idTokenVerified")
+        let us := getJ inp "idpUserinfo"
+        let uresp : UserinfoResp := match strD us "kind" with
+          | "ok" => .ok (toB (strD us "email")) (boolD us "verified")
+          | "status" => .status (intD us "status").toNat
+          | "transport" => .transport
+          | _ => .malformed
+        let (m, calls) := redeemOf k (strD inp "code") tresp idt uresp
+        let kind := strD out "kind"
+        match m with
+        | .session e a rt ttl =>
+          v := v.cmp i "provRedeem.kind" "session" kind ["C10"]
+          v := v.cmp i "provRedeem.session" (showBytes e, a, rt) (strD out "email", strD out "access", strD out "refreshTok") ["C10"]
+          let rf := intD out "refresh"
+          if !(ttl - 1 ≤ rf && rf ≤ ttl + 1) then v := v.diff i "provRedeem.refreshDeadline" (toString ttl) (toString rf) ["C10"]
+          let lf := intD out "lifetime"
+          if !(3599 ≤ lf && lf ≤ 3601) then v := v.diff i "provRedeem.lifetimeDeadline" "3600" (toString lf) ["C10"]
+          v := v.br s!"provRedeem/{prov}/session"
+        | .error => v := v.cmp i "provRedeem.kind" "error" kind ["C10"]; v := v.br s!"provRedeem/{prov}/error"
+        | .panic => v := v.cmp i "provRedeem.kind" "panic" kind ["C10"]
+        v := v.cmp i "provRedeem.idpCalls" calls (strs r "idpKinds") ["C10"]
+        -- monitors, stated on the implementation's outputs and the scripted answers only
+        if kind == "panic" then v := v.mon "C10" "request_never_crashes" i s!"{prov}: {strD out "panic"}"
+        if kind == "session" then
+          let em := strD out "email"
+          let vouched :=
+            if prov == "google" then strD tk "kind" == "ok" && boolD ora "idTokenOK" && strD ora "idTokenEmail" == em
+            else strD tk "kind" == "ok" && strD us "kind" == "ok" && strD us "email" == em && (prov == "cognito" || boolD us "verified")
+          if em == "" || !vouched || strD inp "code" == "" then
+            v := v.mon "C10" "session_email_is_the_vouched_one" i s!"{prov}: session for '{em}'"
+          -- the userinfo question is asked with the access token this very code was redeemed for
+          if prov != "google" then
+            let cl := ((jarr r "idpCalls").toOption.getD #[]).toList
+            match cl.find? (fun c => strD c "kind" == "userinfo") with
+            | some c => if strD c "auth" != "Bearer " ++ strD tk "access" then
+                v := v.mon "C10" "userinfo_asked_with_the_redeemed_token" i s!"{prov}: Authorization '{strD c "auth"}'"
+            | none => v := v.mon "C10" "session_email_is_the_vouched_one" i s!"{prov}: session without a userinfo call"
+      i := i + 1
+    return { v with nontrivial := true }
+  | none => pure ()
   let cfgj ← jget j "cfg"
   let roots := (strs cfgj "roots").map fun d => if d.startsWith "." then d else "." ++ d
   let addresses := strs cfgj "addresses"
   let domains := strs cfgj "domains"
   let c : Cfg := { proxyID := "proxy-client-id", proxySecret := "proxy-client-secret", roots := roots.map (·.toList) }
   let mut idx := 0
+  let mut issued : List (String × String) := []     -- (provider slug, nonce) pairs /start has set and no callback has used up
   for st in ((jarr j "steps").toOption.getD #[]) do
     let inp := getJ st "in"
     let out := getJ st "out"
@@ -342,6 +419,16 @@ def checkCase (j : Json) : Except String Verdict := do
               if ns.email != s.email then v := v.mon "C09" "check_keeps_identity" idx
             | none => pure ()
       | _ => pure ()
+    -- C09 (history level): the nonce a session-creating callback rides on is one this service's own /start handed to this
+    -- browser and that no completed callback has used up — never the empty string, never a used one
+    if endpoint == "start" then
+      for x in setCookies do
+        if strD x "name" == cname ++ "_csrf" && strD x "value" != "" && !(boolD x "expired") then issued := (slug, strD x "value") :: issued
+    if endpoint == "callback" && sessWrites.contains "save" && strD inp "csrf" == "jar" then
+      let nonce := strD (getJ ora "state") "nonce"
+      if nonce == "" || !(issued.contains (slug, nonce)) then
+        v := v.mon "C09" "callback_nonce_was_issued_by_start" idx s!"nonce '{nonce}'"
+      issued := issued.filter (· != (slug, nonce))
     -- C09/C10: the callback creates a session only with matching nonce and an IdP-vouched (verified) e-mail
     if endpoint == "callback" && sessWrites.contains "save" then
       let stj := getJ ora "state"
